@@ -23,7 +23,7 @@ ASSUMPTIONS = ["a socket counts as released when close() was called on it (the f
 PROBES = ["server_close_with_pending_handshake", "server_close_after_replacement", "server_close_with_established", "client_reopen_while_connected",
           "same_address_replacement", "server_reopen", "tls_established_replaced_after_handshake", "server_reopen_bind_failed"]
 BOUNDS = dict(quick=dict(ops=40, clients=3), thorough=dict(ops=120, clients=3))
-TIERS = dict(quick=dict(cases=12000, wall=40.0), thorough=dict(cases=1500000, wall=420.0))
+TIERS = dict(quick=dict(cases=30000, wall=60.0), thorough=dict(cases=1500000, wall=420.0))
 SIM_TIME_UNIT = "net steps"
 
 
